@@ -238,7 +238,7 @@ def check_threads(item):
         def run(i):
             start.wait()
             got[i] = [outcome(parsers[i], f) for f in plans[i]]
-        ts = [threading.Thread(target=run, args=(i,)) for i in range(nthreads)]
+        ts = [threading.Thread(target=run, args=(i,), daemon=True) for i in range(nthreads)]
         for t in ts:
             t.start()
         for t in ts:
@@ -291,15 +291,24 @@ def explore(ctx):
                     d2.append((oi, mi, leaf, back))
     work += [('depth2', x) for x in d2]
     nt = 60 if big else 12
-    for k in range(nt):
-        work.append(('threads', (rng.choice([2, 3, 4, 8]), 200 if big else 60, ctx.seed * 100 + k)))
-    for (k, c), vs in zip(work, pmap(_worker, work, limit=120.0)):
-        if vs == HANG:
-            R.violate({k: list(c) if isinstance(c, tuple) else c}, '%s %r' % (k, c), None, 'returns', 'time limit')
-            continue
-        for (k_, c_, w, cls, e, g) in vs:
-            R.violate({k: list(c) if isinstance(c, tuple) else c}, w, cls, e, g)
-    R.evaluations += len(work)
+    work = [('threads', (rng.choice([2, 3, 4, 8]), 200 if big else 60, ctx.seed * 100 + k)) for k in range(nt)] + work
+    # in batches: on a tree where isolation is broken evaluations may never return; once a hundred violations are in
+    # hand the rest of the sweep is skipped (the check must end in bounded time on a broken tree too)
+    done = 0
+    for lo in range(0, len(work), 320):
+        batch = work[lo:lo + 320]
+        lim = 120.0 if any(k == 'threads' for k, _ in batch) else 20.0
+        for (k, c), vs in zip(batch, pmap(_worker, batch, limit=lim, confirm=False)):
+            if vs == HANG:
+                R.violate({k: list(c) if isinstance(c, tuple) else c}, '%s %r' % (k, c), None, 'returns', 'time limit')
+                continue
+            for (k_, c_, w, cls, e, g) in vs:
+                R.violate({k: list(c) if isinstance(c, tuple) else c}, w, cls, e, g)
+        done += len(batch)
+        if len(R.violations) >= 100:
+            R.extra['stopped_early_after'] = done
+            break
+    R.evaluations += done
     R.nontrivial_extra += len(work)
     R.extra['nested_cases'] = n1
     R.extra['depth2_cases'] = len(d2)
@@ -324,7 +333,7 @@ def search(ctx, proof, res):
                     work.append(('nested', (oi, hook, inner, where, 1, None)))
     for k in range(30):
         work.append(('threads', (rng.choice([2, 4, 8]), 150, 1000 + k)))
-    for (k, c), vs in zip(work, pmap(_worker, work, limit=120.0)):
+    for (k, c), vs in zip(work, pmap(_worker, work, limit=120.0, confirm=False)):
         if vs == HANG:
             continue
         for (k_, c_, w, cls, e, g) in vs:
